@@ -3,6 +3,7 @@ package main
 import (
 	"encoding/json"
 	"fmt"
+	"html"
 	"os"
 	"regexp"
 	"strconv"
@@ -25,6 +26,7 @@ type expectation struct {
 	Line int      `json:"line"`
 	Has  []string `json:"has"`
 	Outs []string `json:"outs"`
+	Lit  string   `json:"lit"`
 }
 
 type renderCase struct {
@@ -62,6 +64,30 @@ func judgeRender(res *Result, exp expectation, out string, err error) {
 			res.Status, res.Kind = "viol", "wrong-output"
 			res.Msg = fmt.Sprintf("want %q got %q", want, out)
 			res.Got = map[string]any{"out": out}
+		}
+	case "escaped":
+		// C10's own predicates: exp.Out is the specification's escaped rendering (for diagnosis and for the unescaped
+		// reference), exp.Lit the literal's text
+		res.Stats["nontrivial"] = 1
+		want := expandMarkers(exp.Out)
+		if err != nil {
+			res.Status, res.Kind = "viol", "wrong-error"
+			res.Msg = fmt.Sprintf("want escaped output %q, got error %s", want, firstLines(err.Error(), 2))
+			return
+		}
+		if out == want {
+			return
+		}
+		plain := html.UnescapeString(want)
+		switch {
+		case strings.ContainsAny(out, "<>"):
+			res.Status, res.Kind, res.Msg = "viol", "raw-angle-bracket", fmt.Sprintf("output %q contains a raw < or > from the literal", out)
+		case html.UnescapeString(out) != plain:
+			res.Status, res.Kind, res.Msg = "viol", "wrong-output", fmt.Sprintf("unescaping the output %q gives %q, not the literal's text %q", out, html.UnescapeString(out), plain)
+		case strings.Count(out, "\"") != strings.Count(plain, "\"") || strings.Count(out, "'") != strings.Count(plain, "'"):
+			res.Status, res.Kind, res.Msg = "viol", "quotes-changed", fmt.Sprintf("quotes do not stay as written: %q", out)
+		case !ampsAreEntities(out):
+			res.Status, res.Kind, res.Msg = "viol", "bare-ampersand", fmt.Sprintf("an & of the literal is not an entity in %q", out)
 		}
 	case "oneof":
 		res.Stats["nontrivial"] = 1
@@ -105,6 +131,17 @@ func judgeRender(res *Result, exp expectation, out string, err error) {
 	default:
 		res.Status, res.Msg = "skip", "unknown expectation kind "+exp.Kind
 	}
+}
+
+var entityRe = regexp.MustCompile(`^&(#[0-9]+|#[xX][0-9a-fA-F]+|[a-zA-Z][a-zA-Z0-9]*);`)
+
+func ampsAreEntities(s string) bool {
+	for i := 0; i < len(s); i++ {
+		if s[i] == '&' && !entityRe.MatchString(s[i:]) {
+			return false
+		}
+	}
+	return true
 }
 
 func renderFamily(raw json.RawMessage) Result {
